@@ -390,6 +390,13 @@ class MinErrorFlow():
         Solves the problem. Returns `True` if the model was solved, `False` otherwise.
         """
         utils.logger.info(f"{__name__}: solving with graph id = {utils.fpid(self.G)}")
+        if getattr(self, "_second_stage_encoded", False):
+            # A previous call replaced the model by the second-stage (few flow values) one: start again from the first stage
+            self._create_solver()
+            self._encode_flow()
+            self._encode_min_sum_errors_objective()
+            self._second_stage_encoded = False
+        self._solution = None
         start_time = time.perf_counter()
         self.solver.optimize()
         self.solve_statistics[f"milp_solve_time"] = (time.perf_counter() - start_time)
@@ -439,6 +446,7 @@ class MinErrorFlow():
                     objective_value=objective_value,
                     ub_different_flow_values=ub_different_flow_values,
                 )
+                self._second_stage_encoded = True
                 self.solver.optimize()
                 self.solve_statistics[f"milp_solve_time"] += (time.perf_counter() - start_time)
                 self.solve_statistics[f"milp_solver_status"] = self.solver.get_model_status()
